@@ -9,8 +9,8 @@
      quiet e                           events that cannot touch the table while no connection is up
                                        (connect failure, timer, disconnect(), updateMetadata, and the disabled ones)
      CInv                              invariant of every reachable state (C10_reachable) *)
-From AV Require Import Base.Util Model.Framing Model.BrokerClient
-  Proofs.BrokerClientTbl Proofs.BrokerClientInv Proofs.BrokerClientC06 Proofs.BrokerClientC10 Proofs.BrokerClientExtra.
+From AV Require Import Base.Util Model.Framing Model.BrokerClient Model.BrokerClientHook
+  Proofs.BrokerClientTbl Proofs.BrokerClientInv Proofs.BrokerClientC06 Proofs.BrokerClientC10 Proofs.BrokerClientExtra Proofs.BrokerClientHook.
 
 Theorem C10_reachable : forall evs, CInv (fst (run init evs)).
 Proof. exact reachable_inv. Qed.
@@ -164,6 +164,47 @@ Print Assumptions C10_closed_forever.
 
 (* the close Deferred fires exactly when there is no transport left: never twice (no OErr: C06_exactly_once) *)
 
+(* ------------------------------------------------------------------ user code inside the two loops (finding F-C10-1)
+   Model/BrokerClientHook.v: in exactly two places a Deferred of the class fires while a method is still looping over
+   the request table - _sendQueued (callback of a no-reply request) and close() (errback of every pending request).
+   IConnOk inter / IClose inter take the calls user code makes there (cancel of any request, makeRequest, disconnect,
+   close - any number, in any order, per Deferred) as a parameter, so "for all inter" is "whatever user callbacks do".
+   Everywhere else a Deferred fires in tail position and a call from its callback is the next event.
+   [irun true] is the code as it is now (commit 7c12cf4). *)
+
+(* every state reachable with such callbacks satisfies the same invariant, so every step-level theorem above applies *)
+Theorem C10_reentrant_reachable : forall evs, CInv (fst (irun true init evs)).
+Proof. exact reachable_inv_i. Qed.
+Print Assumptions C10_reentrant_reachable.
+
+(* a request whose Deferred fired - in particular one failed by a close() or cancelled from inside a loop - is never
+   written, on this or any later connection *)
+Theorem C10_reentrant_never_resent : forall evs s outs a h oc b,
+  irun true init evs = (s, outs) -> outs = a ++ ODef h oc :: b -> forall rid, ~ In (OWrite h rid) b.
+Proof. exact never_resent_i. Qed.
+Print Assumptions C10_reentrant_never_resent.
+
+(* close() leaves no Deferred pending and no table entry, whatever user errbacks do inside its loop *)
+Theorem C10_reentrant_close_all_fired : forall inter s s' o, CInv s -> s_down s = DNone -> close_i inter s = (s', o) ->
+  t_reqs (s_t s') = [] /\ s_down s' <> DNone
+  /\ forall h, (h < length (t_dlog (s_t s')))%nat -> In h (t_fired (s_t s')).
+Proof. exact close_i_all_fired. Qed.
+Print Assumptions C10_reentrant_close_all_fired.
+
+(* with no user code in the loops the extended machine is the machine of Model/BrokerClient.v *)
+Theorem C10_reentrant_conservative : forall evs s, CInv s -> irun true s (map plain evs) = run s evs.
+Proof. exact irun_conservative. Qed.
+Print Assumptions C10_reentrant_conservative.
+
+(* the loop of _sendQueued as it was before the repair (`if tReq.sent is None` only; an approximation of the old code
+   for detached no-reply entries, see the model header - the run-time probe in harness/props/C10.py is what ties this
+   to the code): close() from the callback of a no-reply request, and the request queued behind it is written after
+   close() failed its Deferred *)
+Theorem C10_unguarded_flush_refuted : exists evs s outs a h oc b rid,
+  irun false init evs = (s, outs) /\ outs = a ++ ODef h oc :: b /\ In (OWrite h rid) b.
+Proof. exact unguarded_flush_refuted. Qed.
+Print Assumptions C10_unguarded_flush_refuted.
+
 (* ------------------------------------------------------------------ non-vacuity *)
 (* a connected state with an answered (id 3), a cancelled-but-written (id 1), a no-reply (id 4) and two live
    requests (ids 2, 5): lost, two failed attempts, then connected - exactly 2 and 5 are written, in that order *)
@@ -182,6 +223,19 @@ Example idle_nonvacuous :
   (s_proto s = false /\ s_connector s = CNone /\ s_down s = DNone)
   /\ snd (run init [EMake 1 true; EConnOk; ECancel 0; ELost]) = [OConnect 0; OWrite 0 1; ODef 0 FailCancelled]
   /\ snd (step s (EMake 7 true)) = [OConnect 0].
+Proof. vm_compute. repeat split. Qed.
+
+(* F-C10-1 witness on the current loop: request 1 (no reply) is written, its callback closes the client, request 2 is
+   failed and NOT written.  A callback that cancels request 2 and re-issues id 2: the old request 2 is skipped, the new
+   one was written at once.  An errback inside close() that cancels the oldest request: it ends cancelled, not closed. *)
+Example reentrant_nonvacuous :
+  snd (irun true init [IEv (EMake 1 false); IEv (EMake 2 true); IConnOk [(0%nat, [C0 CClose0])]])
+  = [OConnect 0; OWrite 0 1; ODef 0 SuccNone; OLose; ODef 1 FailClosed]
+  /\ snd (irun true init [IEv (EMake 1 false); IEv (EMake 2 true); IEv (EMake 3 true);
+                          IConnOk [(0%nat, [C0 (CCancel 1); C0 (CMake 2 true)])]])
+  = [OConnect 0; OWrite 0 1; ODef 0 SuccNone; ODef 1 FailCancelled; OWrite 3 2; OWrite 2 3]
+  /\ snd (irun true init [IEv (EMake 1 true); IEv (EMake 2 true); IClose [(1%nat, [CCancel 0; CMake 3 true; CClose0])]])
+  = [OConnect 0; OCancelAttempt; OCloseFired; ODef 1 FailClosed; ODef 0 FailCancelled; ODef 2 FailClosed; ORaised 2].
 Proof. vm_compute. repeat split. Qed.
 
 (* close while backing off, with two requests waiting; later events do nothing *)
